@@ -311,6 +311,63 @@ def check_C13(res, ctx):
            "Sync batch => nothing unflushed at Commit; Sync()/Close() => nothing unflushed; a file is flushed before a new data file is created"
 
 
+def exact_check(res, ctx, name, ops, exp, nontrivial=True):
+    """run ops on the real engine, compare with expected outputs (None = don't care) and with the model"""
+    base = ctx.scratch.fresh()
+    try:
+        outs = run_impl(ops, base)
+    finally:
+        ctx.scratch.drop(base)
+    res.case("\n".join(outs), nontrivial)
+    res.count("ops", len(ops))
+    for i, (op, o, e) in enumerate(zip(ops, outs, exp)):
+        if e is not None and o != e:
+            res.violation("%s: `%s` -> %s, expected %s" % (name, op, o[:200], e[:200]), {"ops": ops[:i + 1], "got": o, "expected": e})
+            return False
+        if o.startswith(("panic:", "died", "dead")):
+            res.violation("%s: `%s` -> %s" % (name, op, o), {"ops": ops[:i + 1]})
+            return False
+    d = diff_model(res, ctx, ops, outs, name)
+    if d is not None:
+        i, a, b = d
+        res.violation("correspondence broke on %s at op %d `%s`: code=%s model=%s" % (name, i, ops[i], a[:200], b[:200]),
+                      {"ops": ops[:i + 1], "code": a, "model": b, "correspondence": "line protocol"}, no_input=True)
+        return False
+    return True
+
+
+def check_C10(res, ctx):
+    from . import itercheck
+    n = 120 if ctx.quick else 3000
+    for i in range(n):
+        rng = rng_for(ctx.seed, "C10ix", i)
+        typ = 1 + i % 3
+        shards = [1, 2, 3, 16, 1024][(i // 3) % 5]
+        ops, exp = itercheck.index_level(rng, typ, shards, 40 if ctx.quick else 80)
+        res.count("index_type%d" % typ)
+        res.count("shards%d" % shards)
+        exact_check(res, ctx, "index-level iterator run %d (type %d, %d shards)" % (i, typ, shards), ops, exp)
+        if i == 0:
+            res.sample({"index_level_ops": ops[:20]})
+    n = 30 if ctx.quick else 600
+    for i in range(n):
+        rng = rng_for(ctx.seed, "C10db", i)
+        cfg = engine.rand_cfg(rng, io=0, fs=rng.choice([4096, 65536]))
+        cfg["idx"] = 1 + i % 3
+        ops, exp = itercheck.db_level(rng, engine.open_line("d", cfg), 40 if ctx.quick else 80)
+        res.count("db_level")
+        exact_check(res, ctx, "DB iterator run %d" % i, ops, exp)
+        if i == 0:
+            res.sample({"db_level_ops": ops[:20]})
+    # ListKeys / Fold visit the same snapshot: covered by the reference oracle of the C01 histories; one here
+    rng = rng_for(ctx.seed, "C10lk")
+    g = engine.Gen(rng, engine.rand_cfg(rng, io=0), nkeys=30, weights={"keys": 10, "fold": 10, "reopen": 0})
+    engine_history_check(res, ctx, "ListKeys/Fold history", g.history(100))
+    return "index level: ShardedIndex x {btree, skiplist, map} x requested shards {1,2,3,16,1024}, random key sets with shared prefixes, two " \
+           "iterators per run, admissible Rewind/Seek/Next sequences (seek targets at or ahead of the cursor), writes after creation; DB level: " \
+           "prefix and direction, values by captured position; oracle: abstract cursor over the sorted snapshot"
+
+
 CHECKS = {
     "C01": check_C01,
     "C02": check_C02,
@@ -319,6 +376,7 @@ CHECKS = {
     "C03": check_C03,
     "C04": check_C04,
     "C13": check_C13,
+    "C10": check_C10,
 }
 
 ASSUME = {
